@@ -149,7 +149,16 @@ def check_window(win):
 class P(Prop):
     id = "C15"
     design_ref = "DESIGN.md section 5, C15"
-    theorems = []
+    M = "TracklibVerif.Props.C15"
+    theorems = [
+        (M, "TV.C15.window_spec", "(w,x) is in the window of i iff w = k[j] and x = v[i-j+D] for a kernel position j whose sample index is inside the signal and not NaN"),
+        (M, "TV.C15.filter_is_mean", "T1: in the domain Filter.execute succeeds, returns one value per observation, and every filtered value is (sum k[j] v[i-j+D]) / (sum k[j]) over the valid j"),
+        (M, "TV.C15.filter_bounds", "T2: a filtered value lies between any lower and upper bound of the non-NaN samples at distance <= D"),
+        (M, "TV.C15.filter_between_samples", "T2': a filtered value lies between two samples of its own window (min window <= out <= max window)"),
+        (M, "TV.C15.filter_const", "T3: when all non-NaN samples equal c every filtered value is c"),
+        (M, "TV.C15.filter_const_signal", "T3': a constant NaN-free signal is returned unchanged, both boundary settings"),
+        (M, "TV.C15.boundary_copy", "T4: without boundary filtering the first and last D outputs are the inputs (NaN included)"),
+    ]
     partial = []
     open_statements = []
     modelled = ("Filter.execute (kernel preparation for weight lists / Kernel objects / Dirac, odd-window test, window index i-j+D, "
